@@ -390,6 +390,10 @@ func report(p *Program, prop, tier string, seed int, frs []*FuncResult, extra *E
 		if fr.Contract.Assumed != "" {
 			status = "assumed-contract: " + fr.Contract.Assumed
 		}
+		if fr.Contract.Variant != "" {
+			status += " (variant contract: body only)"
+			assumed["variant contract "+fr.Key+": proved of the body under its own requires; call sites are checked against the function's main contract, not against these requires"] = true
+		}
 		f := map[string]interface{}{"function": fr.Key, "status": status, "ints": fr.Contract.Ints, "obligations": n, "discharged": d}
 		if fr.Variant != "" {
 			f["variant"] = fr.Variant
